@@ -128,7 +128,7 @@ class ClassInfo:
 
 
 class Program:
-    def __init__(self, root: str):
+    def __init__(self, root: str, min_files: int | None = None):
         self.root = pathlib.Path(root)
         self.pkg = self.root / "inferno"
         if not self.pkg.is_dir():
@@ -139,6 +139,7 @@ class Program:
         self.funcs: list[Func] = []
         self._by_short: dict[str, list[Func]] = {}
         self._enclosing: dict[int, Func] = {}
+        self._min_files = min_files
         self._load()
         self._index()
         self._link_classes()
@@ -163,7 +164,7 @@ class Program:
                 raise AnalysisError(f"parse error in {rel}: {e}") from e
             self.n_alpha_renames = getattr(self, "n_alpha_renames", 0) + alpha.normalise(tree, str(rel))
             self.modules[name] = Module(name, f, str(rel), src, tree, is_pkg)
-        if len(self.modules) < MIN_FILES:
+        if len(self.modules) < (MIN_FILES if self._min_files is None else self._min_files):
             raise AnalysisError(f"only {len(self.modules)} modules parsed (< {MIN_FILES})")
 
     def _index(self):
@@ -203,7 +204,7 @@ class Program:
                     self._add_class(n, m)
             nfun += sum(isinstance(x, (ast.FunctionDef, ast.AsyncFunctionDef)) for x in ast.walk(m.tree))
         ncls = len(self.classes) + sum(len(v) - 1 for v in self.class_dups.values())
-        if ncls < MIN_CLASSES or nfun < MIN_FUNCS:
+        if self._min_files is None and (ncls < MIN_CLASSES or nfun < MIN_FUNCS):
             raise AnalysisError(
                 f"program model too small: {ncls} classes (< {MIN_CLASSES}) or {nfun} functions (< {MIN_FUNCS})"
             )
